@@ -569,7 +569,9 @@ fn render_stmts_in(stmts: &[St], rng: &mut Rng, files: &mut Vec<(String, Vec<u8>
 	let mut out = String::new();
 	for st in stmts
 	{
-		let sep = match rng.below(8) {0 => "\n", 1 => "\n\t", 2 => " // c\n", 3 => " /* c /* n */ */ ", 4 => "\r\n", _ => "\n"};
+		let sep = match rng.below(12) {0 => "\n", 1 => "\n\t", 2 => " // c\n", 3 => " /* c /* n */ */ ", 4 => "\r\n",
+			// nested comments whose inner end is directly followed by `*`, by another opening, `/*/`, `**/`; a line comment that ends in `*/`
+			5 => " /* a /* b */* c */ ", 6 => " /* /* x */ /* y */ */ // z */\n", 7 => " /* /*/ */ **/ ", 8 => "/* **/ // */\n", _ => "\n"};
 		let ws = |rng: &mut Rng| -> &'static str {match rng.below(6) {0 => "  ", 1 => "\t", 2 => " /*x*/ ", _ => " "}};
 		let line = match st
 		{
